@@ -271,6 +271,24 @@ def oracle(case):
                 f2 = feasibility(sub_atoms)
                 if f2 != "grey":
                     judge(f"{tag}:sub-{sel[0]}", sub_atoms, sub_df, f2, out)
+        if tag == "cif" and case.get("edit_copy") and not case.get("oversize"):
+            # a pandas copy of a table that was just asked about, edited afterwards (one chain renamed to a
+            # three-character name / one chain's numbers moved above 9999): a table in its own right, whose answer is its own
+            chains = []
+            for a in atoms:
+                if a["chain"] not in chains:
+                    chains.append(a["chain"])
+            victim = chains[case["edit_copy"][1] % len(chains)]
+            df2 = df.copy()
+            if case["edit_copy"][0] == "chain":
+                atoms2 = [dict(a, chain=a["chain"] + "-2") if a["chain"] == victim else a for a in atoms]
+                df2["auth_asym_id"] = [str(c) + "-2" if str(c) == victim else str(c) for c in df2["auth_asym_id"]]
+            else:
+                atoms2 = [dict(a, resseq=a["resseq"] + 12000) if a["chain"] == victim else a for a in atoms]
+                df2["auth_seq_id"] = [int(n) + 12000 if str(c) == victim else int(n) for n, c in zip(df2["auth_seq_id"], df2["auth_asym_id"])]
+            f3 = feasibility(atoms2)
+            if f3 != "grey":
+                judge("cif:edited-copy", atoms2, df2, f3, out)
     seen, res = set(), []
     for d in out:
         if d.sig not in seen:
@@ -528,8 +546,9 @@ def st_cases():
     select = st.one_of(st.none(), st.tuples(st.sampled_from(["model", "groupby-model", "chain", "chains-alternate"]), st.integers(0, 3)).map(list))
     # label-side atom / residue names that differ from the author-side ones (old vs remediated nomenclature)
     dialect = st.sampled_from([None, None, {"label_alias": True}])
+    edit = st.one_of(st.none(), st.none(), st.tuples(st.sampled_from(["chain", "number"]), st.integers(0, 3)).map(list))
     return st.fixed_dictionaries({"atoms": atomtab.st_tables(max_residues=4, max_atoms=5), "mod": mod, "null": st.sampled_from(["?", "."]),
-                                  "select": select, "dialect": dialect})
+                                  "select": select, "dialect": dialect, "edit_copy": edit})
 
 
 def st_unifier_cases():
